@@ -131,6 +131,9 @@ type holder struct {
 	kind string
 	sig  chan struct{}
 	inj  chan []state.Event
+	// part: deliver only the first n held events (the rest stays held): events that were committed together do not have to
+	// reach the runtime together
+	part chan int
 }
 
 type interposer struct {
@@ -151,7 +154,7 @@ func (ip *interposer) WatchKindAggregated(ctx context.Context, kind resource.Kin
 		return err
 	}
 
-	h := &holder{kind: kindOf[kind.Type()], sig: make(chan struct{}, 64), inj: make(chan []state.Event, 1)}
+	h := &holder{kind: kindOf[kind.Type()], sig: make(chan struct{}, 64), inj: make(chan []state.Event, 1), part: make(chan int, 64)}
 
 	ip.mu.Lock()
 	ip.holders = append(ip.holders, h)
@@ -197,6 +200,16 @@ func (ip *interposer) WatchKindAggregated(ctx context.Context, kind resource.Kin
 				if !send(evs) {
 					return
 				}
+			case n := <-h.part:
+				if len(held) > 0 {
+					n = min(n, len(held))
+					batch := append([]state.Event(nil), held[:n]...)
+					held = held[n:]
+
+					if !send(batch) {
+						return
+					}
+				}
 			case <-h.sig:
 				if len(held) > 0 {
 					batch := held
@@ -221,6 +234,21 @@ func (ip *interposer) flush(kind string) {
 		if kind == "" || h.kind == kind {
 			select {
 			case h.sig <- struct{}{}:
+			default:
+			}
+		}
+	}
+}
+
+// flushPart delivers only the first n held events of the kind.
+func (ip *interposer) flushPart(kind string, n int) {
+	ip.mu.Lock()
+	defer ip.mu.Unlock()
+
+	for _, h := range ip.holders {
+		if kind == "" || h.kind == kind {
+			select {
+			case h.part <- n:
 			default:
 			}
 		}
@@ -877,6 +905,8 @@ func runBehaviour(t *testing.T, tr *vh.Trace, tid string, beh Beh, variant int) 
 			r.emit(Line{Ev: "end"})
 		}
 
+		nflush := 0
+
 		for ci, c := range beh.Cmds {
 			if ci == beh.CancelAt {
 				r.emit(Line{Ev: "cancel"})
@@ -910,7 +940,12 @@ func runBehaviour(t *testing.T, tr *vh.Trace, tid string, beh Beh, variant int) 
 				}
 
 			case "flush":
-				ip.flush(c.K)
+				// every other flush delivers only the oldest held event (a batch of one)
+				if nflush++; nflush%2 == 0 {
+					ip.flushPart(c.K, 1)
+				} else {
+					ip.flush(c.K)
+				}
 			case "step":
 				g := r.gates[c.Ctrl]
 				if c.Fail {
